@@ -80,16 +80,16 @@ theorem absAtom_sound {ρ : String → K} {idx : Expr → Option (Nat × Match)}
 theorem sgn_ne_zero {neg : Bool} {a : K} (h : a ≠ 0) : sgn neg a ≠ 0 := by
   cases neg <;> simp [sgn, h]
 
-theorem evalFacs_powEntries (I : K) (ρ : String → K) (b' : Expr) (q : Nat × Match) (c : Int)
+theorem evalFacs_powEntries (I : K) (ρ : String → K) (b' : Expr) (q : Nat × Match) (k c : Int)
     (t' : List (Expr × Expr)) {vb y : K} (hb : evalK I ρ b' = some vb) (hne : vb ≠ 0)
     (hs : ρ (key q.1) ≠ 0) (ht : evalFacs I ρ t' = some y) :
-    evalFacs I ρ (powEntries b' q c ++ t') =
-      some ((vb ^ q.2.shift * sgn q.2.neg (ρ (key q.1)) ^ invExp q.2.inv) ^ c * y) := by
+    evalFacs I ρ (powEntries b' q k c ++ t') =
+      some (vb ^ k * (vb ^ q.2.shift * sgn q.2.neg (ρ (key q.1)) ^ invExp q.2.inv) ^ c * y) := by
   have hs' : sgn q.2.neg (ρ (key q.1)) ≠ 0 := sgn_ne_zero hs
   simp only [powEntries, List.cons_append, List.nil_append, evalFacs, intLit?, hb, evalK_atomSym,
     Option.bind_some, powVal_of_ne hne, powVal_of_ne hs', ht, mul2]
   congr 1
-  rw [mul_zpow, ← zpow_mul, ← zpow_mul]
+  rw [mul_zpow, ← zpow_mul, ← zpow_mul, zpow_add₀ hne]
   ring
 
 mutual
@@ -152,20 +152,20 @@ mutual
         cases hb : absE idx b with
         | none => simp [hb] at h
         | some b' =>
-          cases hq : idx (.pow b (expContent e).2) with
+          cases hq : idx (.pow b (expNorm e).2.2) with
           | none => simp [hb, hq] at h
           | some q =>
             simp only [hb, hq, Option.some.injEq] at h
             subst h
             have hbK := absE_sound hM ρ idx hidx b b' vb hb hvb
             obtain ⟨i, m⟩ := q
-            have hI := (hidx (.pow b (expContent e).2) i m _ hq hat).2 b _ vb rfl
-              (intLit_expContent e he) hvb
-            have hE := evalFacs_powEntries M.I ρ b' (i, m) (expContent e).1 [] hbK hne hI.2
-              (show evalFacs M.I ρ [] = some 1 by simp [evalFacs])
+            have hI := (hidx (.pow b (expNorm e).2.2) i m _ hq hat).2 b _ vb rfl
+              (intLit_expNorm e he) hvb
+            have hE := evalFacs_powEntries M.I ρ b' (i, m) (expNorm e).1 (expNorm e).2.1 [] hbK hne
+              hI.2 (show evalFacs M.I ρ [] = some 1 by simp [evalFacs])
             simp only [List.append_nil] at hE
             simp only [evalK, hE, mul2]
-            rw [hc, ← hM.pw_mul_int vb v0 _ hne, hI.1]
+            rw [hc, hM.pw_add_int vb _ _ hne, ← hM.pw_mul_int vb v0 _ hne, hI.1]
             congr 1
             ring
     | .sym n, e', v, h, hv => by simp only [absE] at h; exact absAtom_sound hidx h hv
@@ -235,7 +235,7 @@ mutual
         cases hb : absE idx b with
         | none => simp [hb] at h
         | some b' =>
-          cases hq : idx (.pow b (expContent e).2) with
+          cases hq : idx (.pow b (expNorm e).2.2) with
           | none => simp [hb, hq] at h
           | some q =>
             cases ht : absFacs idx t with
@@ -245,11 +245,11 @@ mutual
               subst h
               have hbK := absE_sound hM ρ idx hidx b b' vb hb hvb
               obtain ⟨i, m⟩ := q
-              have hI := (hidx (.pow b (expContent e).2) i m _ hq hat).2 b _ vb rfl
-                (intLit_expContent e he) hvb
-              rw [evalFacs_powEntries M.I ρ b' (i, m) (expContent e).1 t' hbK hne hI.2
+              have hI := (hidx (.pow b (expNorm e).2.2) i m _ hq hat).2 b _ vb rfl
+                (intLit_expNorm e he) hvb
+              rw [evalFacs_powEntries M.I ρ b' (i, m) (expNorm e).1 (expNorm e).2.1 t' hbK hne hI.2
                 (absFacs_sound hM ρ idx hidx t t' y ht hy)]
-              rw [hc, ← hM.pw_mul_int vb v0 _ hne, hI.1]
+              rw [hc, hM.pw_add_int vb _ _ hne, ← hM.pw_mul_int vb v0 _ hne, hI.1]
 end
 
 end
